@@ -22,6 +22,9 @@ type c16Case struct {
 	Moves  []string `json:"moves,omitempty"` // long sequences: the motion between two kills
 	// Emacs: after the yank, commands that change the buffer without killing, then a second yank
 	Post []string `json:"post,omitempty"`
+	// Emacs: the line is accepted after the kill and the yank is made in the next call of the
+	// same Shell (the kill ring outlives the call)
+	NextCall bool `json:"next_call,omitempty"`
 }
 
 var c16Buffers = []string{"echo hello world", "git commit -m 'x y'", "foo(bar[1]) {baz}", "a\nb\nc", "世界 wörld ok", "  padded  text  ", "one", "x", "if true; then\n  echo \"hi\"\nfi",
@@ -92,6 +95,10 @@ func c16Gen(r *rand.Rand, tier string, idx int) any {
 	c.Region = 1 + r.Intn(6)
 	if r.Intn(2) == 0 {
 		c.Region = -c.Region // the point ends before the mark
+	}
+	if r.Intn(6) == 0 {
+		c.NextCall = true
+		return c
 	}
 	if r.Intn(3) == 0 {
 		for i, n := 0, 1+r.Intn(3); i < n; i++ {
@@ -176,7 +183,9 @@ func c16Run(env *fw.Env, raw json.RawMessage) fw.Outcome {
 				}
 			}
 		}
-		add("\x19", "yank")
+		if !c.NextCall {
+			add("\x19", "yank")
+		}
 		for _, k := range c.Post {
 			add(k, "post")
 		}
@@ -184,8 +193,12 @@ func c16Run(env *fw.Env, raw json.RawMessage) fw.Outcome {
 			add("\x19", "yank2")
 		}
 	}
-	res := s.Call(plan, steps("\x03", "\x03"))
-	ctx := fmt.Sprintf("mode=%s buffer=%q cursor=%d kills=%v numarg=%q region=%d", c.Mode, buf, c.Cursor, c.Kills, c.NumArg, c.Region)
+	exit := steps("\x03", "\x03")
+	if c.NextCall {
+		exit = retExit
+	}
+	res := s.Call(plan, exit)
+	ctx := fmt.Sprintf("mode=%s buffer=%q cursor=%d kills=%v numarg=%q region=%d yank-in-the-next-call=%v", c.Mode, buf, c.Cursor, c.Kills, c.NumArg, c.Region, c.NextCall)
 	if !stdFailures(&o, res, ctx) {
 		o.O.Sample = map[string]any{"ctx": ctx}
 		return o.O
@@ -281,6 +294,25 @@ func c16Run(env *fw.Env, raw json.RawMessage) fw.Outcome {
 					o.O.Events++
 					if string([]rune(a.Line)[:a.Pos])+a.Kill+string([]rune(a.Line)[a.Pos:]) != y.Line {
 						o.Viol("yank-after-several-kills-is-not-the-most-recent-one", ctx+fmt.Sprintf(" after the last kill %q (pos %d, kill buffer %q), after yank %q", a.Line, a.Pos, a.Kill, y.Line))
+					}
+				}
+			}
+		}
+	}
+	// the yank of the next call inserts what the last kill of this call took
+	if c.NextCall && lastKill >= 0 && res.Returned && res.Err == "" {
+		if a, ok := after[lastKill]; ok && a.Kill != "" {
+			res2 := s.Call(steps("\x19"), steps("\x03", "\x03"))
+			if stdFailures(&o, res2, ctx+" (next call)") {
+				for i := range res2.Waits {
+					w := &res2.Waits[i]
+					if w.Kind == "main" && w.Step == 1 {
+						o.O.Events++
+						o.Add("yanks_in_the_call_after_the_kill", 1)
+						if w.Line != a.Kill {
+							o.Viol("yank-in-the-next-call-is-not-the-last-kill", ctx+fmt.Sprintf(": kill buffer after the last kill %q; the next call's yank on an empty line gave %q", a.Kill, w.Line))
+						}
+						break
 					}
 				}
 			}
